@@ -61,9 +61,15 @@ Proof. exact encoder_forms_decoded. Qed.
 Print Assumptions C08_encoder_typed_forms_decoded.
 
 (* ... and every pinned name is really singled out by the parser (the pinned set is not larger than the code). *)
-Theorem C08_pinned_typed_elements_realised : forallb (pin_realised main_table dec_hardwired) pinned_typed = true.
+Theorem C08_pinned_typed_elements_realised : forallb (pin_realised main_table (dec_hardwired ++ enc_hardwired)) pinned_typed = true.
 Proof. exact pins_realised. Qed.
 Print Assumptions C08_pinned_typed_elements_realised.
+
+(* Elements typed through the table option WBXML_TAG_OPTION_BINARY: for every tag row of every language, the WBXML encoder
+   writes its text as OPAQUE and the XML generator renders it in base64 exactly when the row (its first match) is flagged. *)
+Theorem C08_binary_option_rows : binary_rows_ok main_table enc_binary_rows xml_binary_rows = true.
+Proof. exact binary_rows_main. Qed.
+Print Assumptions C08_binary_option_rows.
 
 (* the boolean conjunction that the generic parser / encoder theorems (C04-C07, C13, C17) assume *)
 Theorem C08_tables_ok_main : forall l, In l main_table -> tables_ok l = true.
